@@ -48,6 +48,14 @@ pub fn run(args: &Args) {
     let rt = tokio::runtime::Builder::new_current_thread().enable_all().build().unwrap();
     const ROUNDS: u32 = 3;
     if let Some(case) = &args.replay {
+        if let Some(f) = case.strip_prefix("refclient ") {
+            match rt.block_on(super::c03::refpeer::ref_client_session(RefFault::parse(f.trim()))) {
+                Some(o) => { println!("ops: {}\nimpl: {}", o.line.0, o.line.1);
+                    println!("server={} exporter_equal={:?} echo={:?} profile={:?}", o.client_final, o.exporter_equal, o.echo_ok, o.profile); }
+                None => println!("inconclusive (timing)"),
+            }
+            return;
+        }
         if let Some(f) = case.strip_prefix("ref ") {
             match rt.block_on(ref_session(RefFault::parse(f.trim()))) {
                 Some(o) => { println!("ops: {}\nimpl: {}", o.line.0, o.line.1);
@@ -114,6 +122,21 @@ pub fn run(args: &Args) {
             if o.exporter_equal == Some(false) { run.fail("conv:reference-server:exporter-output-differs", &text, ""); }
             if o.echo_ok == Some(false) { run.fail("conv:reference-server:application-data-not-echoed", &text, ""); }
             if let (Some(a), Some(b)) = o.profile { if a != b { run.fail("conv:reference-server:srtp-profile-differs", &text, &format!("{a} vs {b}")); } }
+        }
+    }
+    // reference client against the rustrtc server
+    for fault in [RefFault::None, RefFault::NoEms, RefFault::DupFlight, RefFault::SwapFlight, RefFault::DupHvr] {
+        for _ in 0..reps {
+            let text = format!("refclient {}", fault.text());
+            let mut res = None;
+            for _ in 0..4 { res = rt.block_on(super::c03::refpeer::ref_client_session(fault.clone())); if res.is_some() { break; } run.count("ref_timing_retry"); }
+            let Some(o) = res else { run.count("ref_skipped_timing"); continue; };
+            run.case("hs", &o.line.0, &o.line.1, true);
+            run.count(&format!("refclient:{}:server-{}", fault.text(), o.client_final));
+            if o.client_final != 'C' { run.fail(&format!("conv:reference-client:not-connected:{}", fault.text()), &text, &format!("rustrtc server ended {} (c = Connected but the reference client did not complete)", o.client_final)); }
+            if o.exporter_equal == Some(false) { run.fail("conv:reference-client:exporter-output-differs", &text, ""); }
+            if o.echo_ok == Some(false) { run.fail("conv:reference-client:application-data-not-echoed", &text, ""); }
+            if let (Some(a), Some(b)) = o.profile { if a != b { run.fail("conv:reference-client:srtp-profile-differs", &text, &format!("{a} vs {b}")); } }
         }
     }
     run.notes.insert("rounds".into(), serde_json::json!(ROUNDS));
